@@ -76,8 +76,8 @@ func SimplePolygons(n, maxV int) [][]LPt {
 			m := len(cur) - 1 // number of existing segments
 			for i := 0; i < m; i++ {
 				c, d := pts[cur[i]], pts[cur[i+1]]
-				adjPrev := i == m-1               // shares vertex a (= d)
-				adjFirst := closing && i == 0     // shares vertex b (= c)
+				adjPrev := i == m-1           // shares vertex a (= d)
+				adjFirst := closing && i == 0 // shares vertex b (= c)
 				switch {
 				case adjPrev && adjFirst: // triangle closing: both ends shared
 					k, _, _ := exact.SegInter(c.E(), d.E(), a.E(), b.E())
